@@ -143,6 +143,20 @@ def recshort_de(parent, data):
     return Rec(data["i"], data["s"])
 
 
+def reckind_ser(node, data):
+    """typed trees whose objects are told apart by the node's kind: the mapper stores the fields only ..."""
+    d = node.data
+    data.update({"name": d.name, "size": d.size})
+    return data
+
+
+def reckind_de(parent, data):
+    """... and the load mapper relies on the *stored kind* of the entry to rebuild the object"""
+    k = data["kind"]
+    assert isinstance(k, str) and k, data
+    return Rec(data["name"], data["size"])
+
+
 def str_de(parent, data):
     """Callback for string trees whose entries are dicts ({'str':..., 'data_id':...})."""
     return data["str"]
@@ -297,6 +311,9 @@ _fam("recnest", new_tree=lambda: Tree("T"), load_cls=Tree, typed=False, mk=mk_re
 _fam("recshort", new_tree=lambda: Tree("T"), load_cls=Tree, typed=False, mk=mk_rec, save_mapper=recshort_ser, load_mapper=recshort_de,
      key_custom={"data_id": "D", "t": "T"}, km_names=("off", "custom", "empty"),
      value_custom=lambda L: {"custom": {"t": ["other", "rec"], "i": _vals(L)}}, style="callback mappers whose field names equal the default map's codes (key_map off / custom only)")
+_fam("reckind", new_tree=lambda: TypedTree("T"), load_cls=TypedTree, typed=True, mk=mk_rec, save_mapper=reckind_ser, load_mapper=reckind_de,
+     key_custom={"name": "n", "kind": "K"}, value_custom=lambda L: {"custom": {"kind": ["k2", "zz", "k1"]}, "custom_nokind": {"name": _vals(L)}},
+     style="callback mappers, the load mapper reads the entry's stored kind")
 _fam("dw", new_tree=lambda: Tree("T"), load_cls=Tree, typed=False, mk=mk_dw, save_mapper=DictWrapper.serialize_mapper,
      load_mapper=DictWrapper.deserialize_mapper, key_custom={"name": "n"}, value_custom=lambda L: {"custom": {"name": _vals(L)}},
      style="DictWrapper class mappers as callbacks")
@@ -733,6 +750,7 @@ def case_list(tier: str):
     out += [("rectyped", s) for s in gen.typed_specs(N - 1)]
     out += [("recpop", s) for s in gen.plain_specs(N - 2)] + [("recpop", s) for s in idclone_specs(N - 1, ids=("id7", 0))]
     out += [("recpoptyped", s) for s in idclone_specs(N - 2, typed=True)]
+    out += [("reckind", s) for s in gen.typed_specs(N - 2)]
     out += [("recnest", s) for s in gen.plain_specs(N - 2)] + [("recnest", s) for s in idclone_specs(N - 2)]
     out += [("recshort", s) for s in gen.plain_specs(N - 2)] + [("recshort", s) for s in idclone_specs(N - 2)]
     out += [("dw", s) for s in gen.plain_specs(N - 1)]
